@@ -184,7 +184,7 @@ ApplyDefined(f, v, a) ==
 ----------------------------------------------------------------------------
 (* the interpreter *)
 
-RECURSIVE Eval(_, _), EvalChain(_, _, _, _), Exec(_, _), ExecSeq(_, _, _), ExecItems(_, _, _, _), Loop(_, _, _, _, _),
+RECURSIVE Eval(_, _), EvalChain(_, _, _, _), EvalTagChain(_, _, _, _), Exec(_, _), ExecSeq(_, _, _), ExecItems(_, _, _, _), Loop(_, _, _, _, _),
           CallMacro(_, _, _, _), BindDefaults(_, _, _, _, _), ExecWith(_, _, _, _), FirstOf(_, _, _), EvalList(_, _, _),
           IfChain(_, _, _), EvalPath(_, _, _), EvalPairs(_, _, _, _)
 
@@ -269,8 +269,22 @@ EvalChain(chain, i, r, st) ==
        LET st1 == Ev(ra.st, <<"Filter", c.f>>) IN
        \* with st.symbolic every filter except `safe` stays symbolic (families that sweep the whole registry)
        LET nv == IF c.f \in DefinedFilters /\ (~st.symbolic \/ c.f = "safe") THEN ApplyDefined(c.f, r.v, ra.v) ELSE Ap(c.f, r.v, ra.v) IN
-       \* safe-ness: a filter result is an ordinary value again, except that |safe keeps what it is given
-       EvalChain(chain, i + 1, R(nv, st1, IF c.f = "safe" THEN r.safe ELSE c.f \in SafeOutFilters), st1)
+       \* safe-ness: a filter result is an ordinary value again, except that |safe - and any filter that hands back the very
+       \* value it was given (default on a true value, join on something that is no sequence) - keeps the mark of what it is given
+       LET keeps == c.f = "safe" \/ (~st.symbolic /\ ((c.f = "default" /\ Truthy(r.v)) \/ (c.f = "join" /\ r.v.k # "list"))) IN
+       EvalChain(chain, i + 1, R(nv, st1, IF keeps THEN r.safe ELSE c.f \in SafeOutFilters), st1)
+
+\* the chain of the `filter` tag: as EvalChain, but a parameter that is text (not a literal of the template, not marked safe) is
+\* escaped while autoescape is on - the tag's result is written without further escaping
+EvalTagChain(chain, i, r, st) ==
+  IF i > Len(chain) \/ st.err # "" THEN R(r.v, st, r.safe)
+  ELSE LET c == chain[i] IN
+       LET ra0 == IF c.arg.t = "none" THEN R(Nil, st, FALSE) ELSE Eval(c.arg, st) IN
+       LET isLit == c.arg.t = "lit" IN
+       LET pv == IF c.arg.t # "none" /\ st.auto /\ ~isLit /\ ~ra0.safe /\ ra0.v.k \in {"str", "stringer"} THEN S(EscStr(StrOf(ra0.v))) ELSE ra0.v IN
+       LET st1 == Ev(ra0.st, <<"Filter", c.f>>) IN
+       LET nv == IF c.f \in DefinedFilters /\ (~st.symbolic \/ c.f = "safe") THEN ApplyDefined(c.f, r.v, pv) ELSE Ap(c.f, r.v, pv) IN
+       EvalTagChain(chain, i + 1, R(nv, st1, IF c.f = "safe" THEN r.safe ELSE c.f \in SafeOutFilters), st1)
 
 \* writing a value: escaped iff autoescape is on, the expression has no |safe, the value is not marked safe and is a string
 WriteVal(st, e, r) ==
@@ -387,9 +401,11 @@ Exec(n, st) ==
     [] n.t = "autoescape" ->
          LET st1 == ExecSeq(n.body, [st EXCEPT !.auto = n.on], 1) IN [st1 EXCEPT !.auto = st.auto]
     [] n.t = "filter" ->
+         \* the body is rendered (and escaped) first, the chain is applied to that text and the result is written as it is;
+         \* what a filter takes from a parameter is escaped before the filter sees it (EvalTagChain)
          LET st1 == ExecSeq(n.body, [st EXCEPT !.out = <<>>], 1) IN
          IF st1.err # "" THEN st1
-         ELSE LET r == EvalChain(n.chain, 1, R(S(PiecesStr(st1.out)), st1, FALSE), [st1 EXCEPT !.out = st.out]) IN
+         ELSE LET r == EvalTagChain(n.chain, 1, R(S(PiecesStr(st1.out)), st1, FALSE), [st1 EXCEPT !.out = st.out]) IN
               IF r.st.err # "" THEN r.st ELSE Emit(r.st, W(r.v, 0))
     [] n.t = "include" ->
          \* the included template is a render of its own: it sees the includer's view (tag-set names over the caller's
